@@ -125,7 +125,8 @@ def simplify_app(fname, attrs, args):
       return NF.const(0)
     if cs[0] == 2:
       return NF.atom(LN2_ATOM)
-  if fname in ("reshape", "variable") and isinstance(args[0], NF):
+  if fname in ("reshape", "variable", "expand_dims") and \
+      isinstance(args[0], NF):
     return args[0]     # element-wise identity (shape only / variable read)
   if fname == "join":
     uniq = []
@@ -471,7 +472,7 @@ class Eval(object):
       return VS.fin([0, 1])
     if f == "join":
       return V.join_all(ev(x) for x in args)
-    if f in ("reshape", "repeat", "slice", "index"):
+    if f in ("reshape", "repeat", "slice", "index", "tile", "expand_dims"):
       return ev(args[0])
     if f == "concat":
       return V.join_all(ev(x) for x in args)
@@ -996,7 +997,8 @@ class Deriv(object):
         return du * Fraction(-1, 2) * r * r * r
       if f == "recip":
         return -du / (fu * fu)
-      if f in ("reshape", "repeat", "slice", "index"):
+      if f in ("reshape", "repeat", "slice", "index", "tile",
+               "expand_dims"):
         return du
       # reductions and anything else: opaque but non-zero
       return NF.app("d_" + f, (fu,), attrs) * du
